@@ -197,6 +197,7 @@ def make_change(n, K):
     def run(eng, acc):
         cpts = [int(SymInt(c)) for c in cs]
         check_change(acc, eng, cpts, n, info)
+        acc.inc("witness_ok")        # the case ran natively through the real pandas-based converters
         acc.add_to("cases", tuple(cpts))
         acc.sample(dict(info, cpts=cpts))
 
@@ -217,6 +218,7 @@ def make_collective(n, K):
     def run(eng, acc):
         anoms = [(int(SymInt(s)), int(SymInt(e))) for s, e in zip(ss, es)]
         check_collective(acc, eng, anoms, n, info)
+        acc.inc("witness_ok")
         acc.add_to("cases", tuple(anoms))
         acc.sample(dict(info, anomalies=anoms))
 
@@ -235,6 +237,7 @@ def make_subset(n, K, p):
             mask = int(SymInt(m))
             anoms.append((int(SymInt(s)), int(SymInt(e)), tuple(j for j in range(p) if mask >> j & 1)))
         check_subset(acc, eng, anoms, n, p, info)
+        acc.inc("witness_ok")
         acc.add_to("cases", tuple(anoms))
         acc.sample(dict(info, anomalies=[list(a) for a in anoms]))
 
